@@ -135,6 +135,26 @@ def judge(sub, case, spec, rows, stored, source_factory, base_name, label):
             elif type(ended).__name__ != first[1] or ended.location is None or ended.location.line != first[2]:
                 sub.fail("C05|raise|other-error|expected-%s|got-%s|%s" % (first[1], type(ended).__name__, label), case,
                          "raise must stop with %s at line %d but raised %r" % (first[1], first[2], ended))
+    # once more with a validation limit: the rows behind it are handed on without reaching any check; what the
+    # checks say when the reading is finished depends on the rows in front of it alone
+    header = spec["fmt"].get("header", 0)
+    data_rows = max(0, len(stored) - header)
+    if data_rows >= 2:
+        limit = header + 1 + (len(stored) + len(spec["checks"])) % (data_rows - 1)
+        limited = model_validio.predict(spec, stored, validate_until=limit)
+        if not limited["tainted"]:
+            try:
+                cid = c04.load(spec)
+            except Exception:
+                return expected
+            items, ended = c04.read_all(cid, source_factory("yield"), "yield", validate_until=limit)
+            sub.evaluations += 1
+            if ended is not None and not isinstance(ended, errors.DataError):
+                sub.fail("C05|limit|exception|%s" % type(ended).__name__, dict(case, limit=limit),
+                         "validate_until=%d raised %s: %s" % (limit, type(ended).__name__, ended))
+            elif c04.compare_outcomes(sub, "C05|limit", dict(case, limit=limit), spec, limited, items, base_name,
+                                      label):
+                c04.compare_end(sub, "C05|limit", dict(case, limit=limit), limited, ended, label)
     return expected
 
 
